@@ -55,9 +55,6 @@ func obsM(v lenEnc, isMsg bool) (s string) {
 		return "error: " + err.Error()
 	}
 	b = append([]byte{}, b...)
-	if isMsg {
-		maskXidsRaw(b)
-	}
 	return fmt.Sprintf("%x", b)
 }
 
@@ -75,7 +72,7 @@ func obsD(v lenEnc, decode func([]byte) (any, error)) (s string) {
 	if err != nil {
 		return "decode error"
 	}
-	return dump.Dump(d, dump.Options{Normalise: true, Skip: map[string]bool{"Xid": true}})
+	return dump.Dump(d, dump.Options{Normalise: true})
 }
 
 func runOps(s *subject, ops string) []string {
@@ -157,12 +154,29 @@ func msgSubject(n *wire.N, h bind.Hist) *subject {
 			if err != nil || pn != nil {
 				return nil, nil, nil
 			}
+			// every fresh instance gets the same transaction ids (each constructor draws a new one),
+			// so that ids are part of what must not change
+			fixXids(m, 0x11220000)
 			return m.(lenEnc), func() lenEnc {
-					return of.NewBundleAdd(&of.BundleAdd{BundleID: 1, Flags: 1, Message: m})
+					w := of.NewBundleAdd(&of.BundleAdd{BundleID: 1, Flags: 1, Message: m})
+					w.Header.Xid = 0x33440000
+					return w
 				}, func(b []byte) (any, error) {
 					return of.Parse(b)
 				}
 		}}
+}
+
+// fixXids sets the transaction id of a message and of the messages embedded in bundle-adds.
+func fixXids(m util.Message, base uint32) {
+	if h := bind.HeaderOf(m); h != nil {
+		h.Xid = base
+	}
+	if v, ok := m.(*of.VendorHeader); ok && v != nil {
+		if ba, ok := v.VendorData.(*of.BundleAdd); ok && ba != nil && ba.Message != nil {
+			fixXids(ba.Message, base+1)
+		}
+	}
 }
 
 func actionSubject(a *wire.N) *subject {
